@@ -1,6 +1,7 @@
 """Hand-written mutants (DESIGN 6 'M' lists): name -> {'props': [...], 'edits': [(file, old, new), ...]}."""
 T = "monkeytype/typing.py"
 E = "monkeytype/encoding.py"
+S = "monkeytype/db/sqlite.py"
 MUTANTS = {
     "c04_required_any": {
         "props": ["C04"],
@@ -82,5 +83,50 @@ MUTANTS = {
     "c08_typed_dict_total_lost": {
         "props": ["C08"],
         "edits": [(E, '        d["qualname"], {k: type_from_dict(v) for k, v in d["elem_types"].items()}\n', '        d["qualname"], {k: type_from_dict(v) for k, v in sorted(d["elem_types"].items())[:3]}\n')],
+    },
+    "c09_no_group_by": {
+        "props": ["C09"],
+        "edits": [(S, "    GROUP BY\n        module, qualname, arg_types, return_type, yield_type\n", "")],
+    },
+    "c09_like_again": {
+        "props": ["C09"],
+        "edits": [(S, 'raw_query += " AND substr(qualname, 1, length(?)) == ?"\n        values.extend([qualname, qualname])', 'raw_query += " AND qualname LIKE ? || \'%\'"\n        values.append(qualname)')],
+    },
+    "c09_contains_not_prefix": {
+        "props": ["C09"],
+        "edits": [(S, 'raw_query += " AND substr(qualname, 1, length(?)) == ?"\n        values.extend([qualname, qualname])', 'raw_query += " AND instr(qualname, ?) > 0"\n        values.append(qualname)')],
+    },
+    "c09_module_like": {
+        "props": ["C09"],
+        "edits": [(S, "        module == ?\n", "        module LIKE ?\n")],
+    },
+    "c09_autocommit": {
+        "props": ["C09"],
+        "edits": [(S, "        conn = sqlite3.connect(connection_string)\n", "        conn = sqlite3.connect(connection_string, isolation_level=None)\n")],
+    },
+    "c09_serialize_not_catching": {
+        "props": ["C09"],
+        "edits": [(E, "        except Exception:\n            logger.exception(\"Failed to serialize trace\")", "        except KeyError:\n            logger.exception(\"Failed to serialize trace\")")],
+    },
+    "c09_insert_before_serialize_all": {
+        "props": ["C09"],
+        "edits": [(S, """        with self.conn:
+            self.conn.executemany(
+                "INSERT INTO {table} VALUES (?, ?, ?, ?, ?, ?)".format(
+                    table=self.table
+                ),
+                values,
+            )""", """        for i in range(0, len(values), 4):
+            with self.conn:
+                self.conn.executemany(
+                    "INSERT INTO {table} VALUES (?, ?, ?, ?, ?, ?)".format(
+                        table=self.table
+                    ),
+                    values[i : i + 4],
+                )""")],
+    },
+    "c09_limit_in_subquery": {
+        "props": ["C09"],
+        "edits": [(S, "    FROM {table}\n    WHERE\n", "    FROM (SELECT * FROM {table} LIMIT 50)\n    WHERE\n")],
     },
 }
